@@ -11,6 +11,9 @@ def run(F, G, tier, seed):
     printer.run_strquote(chk, F)
     from ..rules import prquery
     prquery.run(chk, F, G)
+    prquery.run_productions(chk, F, G)
+    printer.run_altsyntax(chk, F)
+    prquery.run_delimiters(chk, F, G)
     return chk.finish(
         "Decides that the printer's parenthesisation is safe with respect to the parser for every (parent, position, "
         "child) triple of the operator fragment - by LR simulation on the automaton of the current grammar, not by "
